@@ -51,12 +51,17 @@ pub struct Case {
     /// drop the receiver after this many events (None = keep)
     pub drop_rx_after: Option<usize>,
     pub followup_depth: usize,
+    /// keep the receiver but do not read it until the search thread has returned
+    pub hold_rx: bool,
+    /// no previous artifact: the engine creates its own (full-size) memory
+    pub fresh_memory: bool,
 }
 
 impl Case {
     pub fn to_json(&self) -> Value {
         json!({"fen": self.fen, "depth": self.depth, "seed": self.seed, "tables": self.tables, "buckets": self.buckets, "hasher_seed": self.hasher_seed,
-               "stops": self.stops, "stop_after": self.stop_after, "drop_rx_after": self.drop_rx_after, "followup_depth": self.followup_depth})
+               "stops": self.stops, "stop_after": self.stop_after, "drop_rx_after": self.drop_rx_after, "followup_depth": self.followup_depth,
+               "hold_rx": self.hold_rx, "fresh_memory": self.fresh_memory})
     }
     pub fn from_json(v: &Value) -> Case {
         Case {
@@ -70,11 +75,13 @@ impl Case {
             stop_after: v["stop_after"].as_bool().unwrap_or(false),
             drop_rx_after: v["drop_rx_after"].as_u64().map(|d| d as usize),
             followup_depth: v["followup_depth"].as_u64().unwrap_or(1) as usize,
+            hold_rx: v["hold_rx"].as_bool().unwrap_or(false),
+            fresh_memory: v["fresh_memory"].as_bool().unwrap_or(false),
         }
     }
     /// identifies the failing input for known findings: root + depth limit + whether Stop is involved
     pub fn signature(&self, kind: &str) -> String {
-        format!("{}|{}|depth={}|stop={}", kind, self.fen, self.depth.map(|d| d.to_string()).unwrap_or("none".into()), if self.stops.is_empty() { "no" } else { "yes" })
+        format!("{}|{}|depth={}|stop={}{}{}", kind, self.fen, self.depth.map(|d| d.to_string()).unwrap_or("none".into()), if self.stops.is_empty() { "no" } else { "yes" }, if self.hold_rx { "|receiver-unread" } else { "" }, if self.fresh_memory { "|own-memory" } else { "" })
     }
 }
 
@@ -137,9 +144,15 @@ pub fn run_case(case: &Case, ev: &Evaluator, ctx: &Ctx, rep: &mut Report) -> Ver
     srch::install_observer();
     srch::reset();
     let mark = util::panic_mark();
-    let art = verif::small_artifact(case.hasher_seed, case.tables, case.buckets);
+    let art = if case.fresh_memory { None } else { Some(verif::small_artifact(case.hasher_seed, case.tables, case.buckets)) };
     let replay = json!({"case": case.to_json()});
-    let (handle, tx, rx) = Searcher::new().analyze(st, case.seed, ev.clone(), case.depth, Some(art));
+    let (handle, tx, rx) = Searcher::new().analyze(st, case.seed, ev.clone(), case.depth, art);
+    if case.fresh_memory {
+        rep.count("searches_creating_their_own_memory", 1);
+    }
+    if case.hold_rx {
+        rep.count("receiver_held_unread_until_return", 1);
+    }
     rep.eval(1);
     rep.count("searches_public_entry", 1);
     // Stop instants by node count
@@ -195,7 +208,9 @@ pub fn run_case(case: &Case, ev: &Evaluator, ctx: &Ctx, rep: &mut Report) -> Ver
         if stops_sent.load(SeqCst) > 0 && stop_sent_at.is_none() {
             stop_sent_at = Some(Instant::now());
         }
-        if let Some(r) = rx.as_ref() {
+        if case.hold_rx {
+            std::thread::sleep(Duration::from_millis(5));
+        } else if let Some(r) = rx.as_ref() {
             match r.recv_timeout(Duration::from_millis(20)) {
                 Ok(e) => {
                     events += 1;
@@ -341,7 +356,14 @@ fn followup(case: &Case, art: SearchArtifact, ev: &Evaluator, rng: &mut gen::R, 
     let root = Pos::from_fen(&case.fen).unwrap();
     // next root: the same position, or a successor
     let legal = root.legal_moves();
-    let next = if legal.is_empty() || rng.gen_bool(0.4) { root.clone() } else { root.make(legal.choose(rng).unwrap()) };
+    let next = if legal.is_empty() && case.fresh_memory {
+        // after a finished game the next search is about another position
+        Pos::from_fen("r1bq1rk1/pp2bppp/2n1pn2/2pp4/3P1B2/2PBPN2/PP1N1PPP/R2QK2R w KQ - 2 8").unwrap()
+    } else if legal.is_empty() || rng.gen_bool(0.4) {
+        root.clone()
+    } else {
+        root.make(legal.choose(rng).unwrap())
+    };
     let st = to_state(&next);
     let cfg = srch::Cfg { depth: Some(case.followup_depth), workers: Some(*[1usize, 2, 4].choose(rng).unwrap()), seed: rng.gen() };
     let cancel = verif::Cancel::new();
@@ -381,7 +403,7 @@ fn followup(case: &Case, art: SearchArtifact, ev: &Evaluator, rng: &mut gen::R, 
 
 pub fn make_case(rng: &mut gen::R, corpus: &[Pos], kind: &str) -> Case {
     let (tables, buckets) = *[(1usize, 1usize), (2, 5), (8, 64), (8, 1024), (128, 1024)].choose(rng).unwrap();
-    let mut c = Case { fen: String::new(), depth: None, seed: rng.gen(), tables, buckets, hasher_seed: rng.gen(), stops: vec![], stop_after: rng.gen_bool(0.3), drop_rx_after: None, followup_depth: rng.gen_range(1..=2) };
+    let mut c = Case { fen: String::new(), depth: None, seed: rng.gen(), tables, buckets, hasher_seed: rng.gen(), stops: vec![], stop_after: rng.gen_bool(0.3), drop_rx_after: None, followup_depth: rng.gen_range(1..=2), hold_rx: false, fresh_memory: false };
     let log_uniform = |rng: &mut gen::R, hi: f64| -> u64 { (10f64.powf(rng.gen_range(0.0..hi.log10()))) as u64 };
     match kind {
         "terminal" => {
@@ -422,9 +444,41 @@ pub fn make_case(rng: &mut gen::R, corpus: &[Pos], kind: &str) -> Case {
             let p = c03::random_root(rng, corpus);
             c.depth = Some(c03::pick_depth(rng, p.men()));
             c.fen = p.fen();
-            if rng.gen_bool(0.25) {
-                c.drop_rx_after = Some(rng.gen_range(1..4));
+            match rng.gen_range(0..4) {
+                0 => c.drop_rx_after = Some(rng.gen_range(1..4)),
+                1 => c.hold_rx = true,
+                _ => {}
             }
+        }
+        "hold" => {
+            // many iterations, receiver kept but unread: sparse endgames reach great depth quickly
+            let p = loop {
+                let q = gen::sample(rng);
+                if q.men() <= 4 && !q.legal_moves().is_empty() && q.imbalance() < 8.0 {
+                    break q;
+                }
+            };
+            c.fen = p.fen();
+            c.hold_rx = true;
+            // many cheap iterations (two events each) pile up in the unread channel before Stop arrives
+            c.depth = if rng.gen_bool(0.3) { Some(64) } else { None };
+            c.stops = vec![(10f64.powf(rng.gen_range(2.5..4.7))) as u64];
+        }
+        "own-memory" => {
+            // the engine allocates its own 1 GiB memory: terminal and ordinary roots, then a follow-up
+            let p = if rng.gen_bool(0.6) {
+                loop {
+                    if let Some(p) = c05::sample_terminal(rng) {
+                        break p;
+                    }
+                }
+            } else {
+                c03::random_root(rng, corpus)
+            };
+            c.fen = p.fen();
+            c.fresh_memory = true;
+            c.depth = Some(rng.gen_range(1..=2));
+            c.followup_depth = rng.gen_range(1..=3);
         }
         _ => {
             // Stop at a chosen instant in a deep or unlimited search
@@ -479,7 +533,7 @@ pub fn run(ctx: &Ctx, rep: &mut Report) {
     }
     if ctx.mode == "quiescence" {
         // the listed input of known finding F11: Stop during an exploding capture search
-        let case = Case { fen: EXPLOSIVE_FEN.into(), depth: Some(1), seed: 1, tables: 8, buckets: 1024, hasher_seed: 1, stops: vec![1], stop_after: false, drop_rx_after: None, followup_depth: 1 };
+        let case = Case { fen: EXPLOSIVE_FEN.into(), depth: Some(1), seed: 1, tables: 8, buckets: 1024, hasher_seed: 1, stops: vec![1], stop_after: false, drop_rx_after: None, followup_depth: 1, hold_rx: false, fresh_memory: false };
         match run_case(&case, &ev, ctx, rep) {
             Verdict::Ok(_) => rep.note("the listed quiescence explosion did not exceed the bound on this tree"),
             _ => {
@@ -490,7 +544,22 @@ pub fn run(ctx: &Ctx, rep: &mut Report) {
         return;
     }
     let mut n = ctx.n(2_500, 200_000);
-    let kinds = ["stop", "stop", "depth", "terminal", "bounded", "sparse", "stop", "sync"];
+    let kinds = ["stop", "stop", "depth", "terminal", "bounded", "sparse", "stop", "sync", "hold", "depth"];
+    // a few searches that create their own full-size memory (1 GiB each: kept rare, first shards only)
+    if ctx.shard < 8 && ctx.mode != "tsan" {
+        for _ in 0..(if ctx.thorough() { 12 } else { 3 }) {
+            let case = make_case(&mut rng, &corpus, "own-memory");
+            rep.count("cases_own-memory", 1);
+            match run_case(&case, &ev, ctx, rep) {
+                Verdict::Ok(Some(a)) => followup(&case, a, &ev, &mut rng, rep),
+                Verdict::Fatal => {
+                    rep.write(ctx);
+                    std::process::exit(if rep.violation_count > 0 { 1 } else { 2 });
+                }
+                _ => {}
+            }
+        }
+    }
     let mut k = 0usize;
     while n > 0 && ctx.time_left() {
         let kind = kinds[k % kinds.len()];
